@@ -719,7 +719,57 @@ def _str_fold(name):
     return m
 
 
-for _n in ("lower", "upper", "strip", "lstrip", "rstrip", "split", "rsplit", "join", "replace", "format", "encode",
+@method(str, "join")
+def str_join(run, self, it):
+    items = list(run.iterate(it))
+    if any(type(x).__name__ == "VText" for x in items):
+        h = run.ghost.get("text_join")
+        if h is None:
+            raise Unsupported("join over abstract text without a text model")
+        return h(run, self, items)
+    return _str_fold("join")(run, self, VList(list, items))
+
+
+@method(set, "__new__")
+def set_new(run, clsv, it=None):
+    out = []
+    if it is not None:
+        for x in run.iterate(it):
+            if not any(x is y or run.key_eq(x, y) for y in out):
+                out.append(x)
+    return VSet(clsv.obj, out)
+
+
+@method(set, "__init__")
+def set_init(run, self, *a):
+    return NONE
+
+
+def _set_eq(run, self, other):
+    if not isinstance(other, VSet):
+        return NOTIMPL
+    if len(self.items) != len(other.items):
+        return mk_bool(run, False)
+    return mk_bool(run, all(any(a is b or run.key_eq(a, b) for b in other.items) for a in self.items))
+
+
+METHODS[(set, "__eq__")] = _set_eq
+METHODS[(frozenset, "__eq__")] = _set_eq
+
+
+@method(set, "__and__")
+def set_and(run, self, other):
+    if not isinstance(other, VSet):
+        return NOTIMPL
+    return VSet(set, [a for a in self.items if any(a is b or run.key_eq(a, b) for b in other.items)])
+
+
+@method(set, "__iter__")
+def set_iter(run, self):
+    return VIter(iter(list(self.items)), "set_iterator")
+
+
+for _n in ("lower", "upper", "strip", "lstrip", "rstrip", "split", "rsplit", "replace", "format", "encode",
            "isdigit", "isidentifier", "find", "rfind", "index", "count", "title", "capitalize", "partition",
            "rpartition", "splitlines", "zfill", "__mod__", "isalpha", "isalnum", "isspace", "casefold", "removeprefix",
            "removesuffix", "ljust", "rjust", "center", "translate", "__format__", "islower", "isupper", "swapcase"):
